@@ -384,6 +384,8 @@ func runStore(t *testing.T, tape *verifsim.Tape, prop, tier string, keepLog bool
 	switch prop {
 	case "C03":
 		return runPull(t, tape, prop, tier, keepLog)
+	case "C04":
+		return runOps(t, tape, prop, tier, keepLog)
 	}
 	return verifsim.Result{HarnessErr: "store harness does not serve " + prop}
 }
@@ -399,8 +401,14 @@ func TestVerifStore(t *testing.T) {
 		Stub: []string{"registry / CDN / auth servers (simRegistry: protocol state + tape-drawn faults)", "TCP/TLS (no sockets)", "process death = freeze + unwind (no power-loss reordering)"},
 		Rule: map[string]string{
 			"C03": "one evaluation = one simulated execution: 1-3 published models (1-4 layers of 0-200 KB, shared layers, optional tag update), 1-7 phases of 1-2 concurrent POST /api/pull attempts with tape-drawn interrupts, a tape-drawn subset of 17 network fault kinds at a tape-drawn rate, part size 1-64 KB, then up to three fault-free retries per model; non-trivial = at least two tasks runnable at some step and at least one network request; distinct = different hash of the (task,label,time) decision sequence",
+			"C04": "one evaluation = one simulated execution of a tape-drawn history of 5-80 API operations (blob upload, create from files, create FROM, copy, delete, pull from a fault-free simulated registry, restart with start-up prune) over a pool of 60 names that includes case variants, several tags, hosts and namespaces, with layers shared through identical content, FROM and copy; the statement is evaluated after every operation through GET /api/tags, POST /api/show and a digest/size walk of the store; non-trivial = at least two operations succeeded and two models coexisted; distinct = different hash of the decision sequence",
 		},
-		NonTrivial: func(prop string, r *verifsim.Result) bool { return r.MaxRunnable >= 2 && r.Info["net_requests"] > 0 },
+		NonTrivial: func(prop string, r *verifsim.Result) bool {
+			if prop == "C04" {
+				return r.Info["op_ok"] >= 2 && r.Probes["two_models_coexist"] > 0
+			}
+			return r.MaxRunnable >= 2 && r.Info["net_requests"] > 0
+		},
 		Assumptions: []string{"instrumentation preserves single-threaded semantics", "testing/synctest fake clock and quiescence detection",
 			"the simulated registry follows the distribution protocol as the legacy client uses it (manifest GET, blob HEAD, 307 to a CDN, ranged GET, token auth)",
 			"a manifest body damaged in transit is indistinguishable from a different published manifest for the legacy protocol; for such runs only digest-level checks are made"},
